@@ -433,7 +433,11 @@ func c06RegistryAccessors(r *Run) {
 			return true
 		}
 		if t := reflectTypeForArg(root.TypesInfo, kv.Value); t != nil {
-			got[k.Name] = t.String()
+			name := k.Name
+			if fv, ok := root.TypesInfo.Uses[k].(*types.Var); ok {
+				name = fname(fv) // the reference-tree name of a renamed field
+			}
+			got[name] = t.String()
 		}
 		return true
 	})
